@@ -9,6 +9,7 @@ from pyvc.api import *
 from spec.core import *
 from spec.basex import *
 from pycoin.encoding.exceptions import EncodingError
+import pycoin.encoding.b58 as _b58
 import z3 as _z3
 from pyvc.values import SV as _SV, lift as _lift
 
@@ -69,6 +70,7 @@ def _from_long_inv(base, v, ba, old_v):
 class b2a_base58:
     """bytes -> Base58 text: value in base 58, one '1' per leading zero byte"""
     props = ["C11"]
+    options = {'reveal': ['digit_of', 'char_of']}
     sig = dict(s=Bytes(sample_max=12, interesting=[b"", b"\x00", b"\x00\x00", b"\x00\x01", b"\xff", b"\x00\xff\x00"]))
     returns = Str()
 
@@ -85,6 +87,7 @@ class b2a_base58:
 class a2b_base58:
     """Base58 text -> bytes: refused (EncodingError) exactly when a character is not in the alphabet"""
     props = ["C11"]
+    options = {'reveal': ['digit_of', 'char_of']}
     sig = dict(s=Str(sample_max=8, alphabet="1112ABCabcz0l"))
     returns = Bytes()
 
@@ -170,3 +173,49 @@ class is_hashed_base58_valid:
         t = codes(base58)
         d = b58_bytes(t)
         return result == (digits_ok_upto(58, t, len(t)) and dsha256(d[:-4])[:4] == d[-4:])
+
+
+# ---------------------------------------------------------------- decode(encode(s)) == s
+@axiom(sig={}, reason="CPython: decoding ASCII bytes as UTF-8 gives the text with those code points")
+def ascii_text(b):
+    return implies(ascii_upto(b, len(b)), codes(ascii_decode(b)) == b)
+
+
+def b58_roundtrip(s):
+    return _b58.a2b_base58(_b58.b2a_base58(s))
+
+
+def b58check_roundtrip(data):
+    return _b58.a2b_hashed_base58(_b58.b2a_hashed_base58(data))
+
+
+@contract("contracts.c11_base58:b58_roundtrip")
+class c_b58_roundtrip:
+    """a2b_base58(b2a_base58(s)) == s for every byte string (through the two contracts above and the lemma family of
+    spec/basex.py: value, digits and leading zeros of the positional text; a byte string is the text of its own value)"""
+    props = ["C11"]
+    sig = dict(s=Bytes(sample_max=12, interesting=[b"", b"\x00", b"\x00\x00\x01", b"\xff" * 5]))
+    returns = Bytes()
+
+    def hints(s):
+        base58_roundtrip_spec(s)
+        ascii_text(positional(58, dval_upto(256, s, len(s)), zpre_upto(256, s, len(s))))
+
+    def ensures_identity(s, result):
+        return result == s
+
+
+@contract("contracts.c11_base58:b58check_roundtrip")
+class c_b58check_roundtrip:
+    """Base58Check decoding of the Base58Check encoding gives the data back (and is never refused)"""
+    props = ["C11"]
+    sig = dict(data=Bytes(sample_max=12))
+    returns = Bytes()
+
+    def hints(data):
+        d = data + dsha256(data)[:4]
+        base58_roundtrip_spec(d)
+        ascii_text(positional(58, dval_upto(256, d, len(d)), zpre_upto(256, d, len(d))))
+
+    def ensures_identity(data, result):
+        return result == data
